@@ -659,27 +659,62 @@ theorem TriPixels.new_moved (t : Tri) (style : TriStyle) (d : Pt) (hg : TriGuard
   · rw [ha, hb]
     right; right; exact ⟨rfl, rfl⟩
 
+/-- The model's fuel for `pixels()` (total length of the scanline run) does not change when the
+triangle is moved. -/
+theorem triPixelFuel_translate (t : Tri) (style : TriStyle) (d : Pt) (hg : TriGuards t style d) :
+    triPixelFuel (t.translate d) style = triPixelFuel t style := by
+  have h := triScanlineList_moved t style d hg
+  have e1 : ∀ t', triPixelFuel t' style =
+      ((triScanlines t' style).bind TriScanlines.toList).map
+        (fun lines => (lines.map (fun x => (x.1.xe - x.1.xs).toNat)).sum + 1) := by
+    intro t'
+    unfold triPixelFuel
+    cases triScanlines t' style with
+    | none => rfl
+    | some li =>
+      simp only [Option.bind_eq_bind, Option.bind_some]
+      cases li.toList <;> rfl
+  rw [e1, e1]
+  cases h1 : (triScanlines (t.translate d) style).bind TriScanlines.toList with
+  | none =>
+    cases h2 : (triScanlines t style).bind TriScanlines.toList with
+    | none => rfl
+    | some l => rw [h1, h2] at h; exact h.elim
+  | some l' =>
+    cases h2 : (triScanlines t style).bind TriScanlines.toList with
+    | none => rw [h1, h2] at h; exact h.elim
+    | some l =>
+      rw [h1, h2] at h
+      have h' : l' = l.map (shiftTyped · d) := h
+      subst h'
+      simp only [Option.map_some, Option.some.injEq, List.map_map, Nat.add_right_cancel_iff]
+      congr 1
+      apply List.map_congr_left
+      intro x _
+      simp only [Function.comp, shiftTyped, shiftS]
+      congr 1
+      omega
+
 /-- **`pixels()` of a moved styled triangle is the moved pixel sequence, with the same colours.** -/
 theorem triPixels_translate (t : Tri) (style : TriStyle) (d : Pt) (hg : TriGuards t style d) :
     triPixels (t.translate d) style = (triPixels t style).map (·.map (shiftPx · d)) := by
   unfold triPixels
-  rw [triStyledBoundingBox_translate t style d hg.ns hg.box]
-  cases triStyledBoundingBox t style with
+  rw [triPixelFuel_translate t style d hg]
+  cases triPixelFuel t style with
   | none => rfl
-  | some bb =>
-    simp only [Option.map_some, Option.bind_eq_bind, Option.bind_some, Rect.translate_size]
+  | some fuel =>
+    simp only [Option.map_some, Option.bind_eq_bind, Option.bind_some]
     rcases TriPixels.new_moved t style d hg with ⟨a, b, ha, hb, hab⟩ | ⟨cc, ha, hb⟩ | ⟨ha, hb⟩
     · rw [ha, hb]
       simp only [Option.bind_some]
-      have h := TriPixels.toListFuel_moved
-        (3 * (bb.size.w + 2 * style.strokeWidth + 4) * (bb.size.h + 1) + 2) hab
-      cases h1 : a.toListFuel (3 * (bb.size.w + 2 * style.strokeWidth + 4) * (bb.size.h + 1) + 2) with
+      have h := TriPixels.toListFuel_moved fuel hab
+      cases h1 : a.toListFuel fuel with
       | none =>
-        cases h2 : b.toListFuel (3 * (bb.size.w + 2 * style.strokeWidth + 4) * (bb.size.h + 1) + 2) with
+        cases h2 : b.toListFuel fuel with
         | none => rfl
         | some l => rw [h1, h2] at h; exact h.elim
       | some l' =>
-        cases h2 : b.toListFuel (3 * (bb.size.w + 2 * style.strokeWidth + 4) * (bb.size.h + 1) + 2) with
+        cases h2 : b.toListFuel fuel with
         | none => rw [h1, h2] at h; exact h.elim
         | some l =>
           rw [h1, h2] at h
